@@ -5,3 +5,4 @@ Definition k_flow_read_asn1_generalized_time : pfun :=
     SAssign ["raw_time"; "consumed"] (PCall "_validate_tag/header,hint" [(PName "data"); (PName "tag"); (PCall "ASN1Tag.universal_tag" [(PName "TypeTagNumber.GENERALIZED_TIME"); (PBool false)]); (PName "header"); (PName "hint")]);
     SReturn (PTuple [(PMeth "decode" (PMeth "tobytes" (PName "raw_time") []) [(PStr [117; 116; 102; 45; 56])]); (PName "consumed")])
   ] |}.
+Definition k_flow_read_asn1_generalized_time_defaults : list (string * pexp) := [("tag", PNone); ("header", PNone); ("hint", PNone)].
